@@ -770,7 +770,7 @@ class Messenger(Connection):
                         length=pkt.payload.length
                     )
                 elif msgcls == messages.TransferRefuse:
-                    self.recv_xfer_refuse(pkt.payload.transfer_id, pkt.flags)
+                    self.recv_xfer_refuse(pkt.payload.transfer_id, pkt.payload.reason)
 
                 else:
                     # Bad RX message
@@ -1348,9 +1348,15 @@ class ContactHandler(Messenger, dbus.service.Object):
     def recv_xfer_refuse(self, transfer_id, reason):
         Messenger.recv_xfer_refuse(self, transfer_id, reason)
 
-        self.send_bundle_finished(transfer_id, 'refused with code %s', reason)
-        item = self._tx_map.pop(transfer_id)
-        self._tx_pend_ack.remove(item)
+        item = self._tx_map.pop(transfer_id, None)
+        if item is None:
+            # not a transfer of this session (any more)
+            raise RejectError(messages.RejectMsg.Reason.UNEXPECTED)
+        self.send_bundle_finished(str(transfer_id), item.ack_length, 'refused with code %s' % reason)
+        # not awaiting any more if it was at all
+        self._tx_pend_ack.discard(item)
+        if item in self._tx_pend_start:
+            self._tx_pend_start.remove(item)
 
         # interrupt in-progress
         if self._tx_tmp is not None and self._tx_tmp.transfer_id == transfer_id:
